@@ -64,7 +64,7 @@ CacheP0(maxsize, ttl) ==
    okstart |-> [k \in CKeys |-> 0],   \* start index of the latest-started call on k that returned ok
    okval |-> [k \in CKeys |-> 0],     \* ... and the execution whose object it returned
    useend |-> [k \in CKeys |-> 0],    \* index of the latest ok return of a call on k
-   failed |-> FALSE,                  \* some execution ended without a result
+   failed |-> FALSE,                  \* some execution or call ended without a result
    taint |-> FALSE,                   \* F3 shape seen (see EvictsBlindly)
    ttaint |-> FALSE,                  \* a key was recomputed under a ttl (in-place expiry)
    known |-> {}]
@@ -83,20 +83,20 @@ SigTwice     == "ConcurrentExecutionsAfterInFlightEviction"
 SigTtlOrder  == "ExpiredEntryKeepsLruPosition"
 
 \* An execution for key k starts inside the call of c.  The pinned code has just decided whether
-\* to evict; it evicts blindly (possibly a placeholder) when the cache is full by its own count
-\* and some placeholder can be at the front: another execution is running, an earlier execution
-\* left a dead placeholder behind (failed / cancelled), or another call began between this call's
-\* look-up and now (a hit moves its entry behind this call's own placeholder).
+\* to evict; it evicts blindly (possibly a placeholder: its own, that of an execution in flight or
+\* about to start, or a dead one) when the cache is full by its own count and a placeholder can be
+\* at the front of the dict: somebody else is inside a call right now, another call began or
+\* returned since this call's look-up (a hit moves its entry behind this call's placeholder), or
+\* an earlier call or execution ended without a result (dead placeholder, count not given back).
 \* "Full by its own count" cannot happen before maxsize executions have started; in a history
-\* without failed executions it needs maxsize other keys.
+\* without failures it needs maxsize other keys.
 MayEvict(p, k) ==
   LET otherKeys == {p.ex[x].k : x \in DOMAIN p.ex} \ {k}
   IN CBounded(p) /\ p.ms > 0 /\ (IF p.failed THEN Len(p.ex) >= p.ms ELSE Cardinality(otherKeys) >= p.ms)
 EvictsBlindly(p, c, k) ==
-  LET full == MayEvict(p, k)
-      otherRunning == CRunning(p) # {}
-      callSince == \E k2 \in CKeys : p.lastcall[k2] > p.calls[c].n
-  IN CBounded(p) /\ p.ms > 0 /\ full /\ (otherRunning \/ p.failed \/ callSince)
+  LET othersOn == \E c2 \in CCallers \ {c} : p.calls[c2].on
+      since == \E k2 \in CKeys : p.lastcall[k2] > p.calls[c].n \/ p.useend[k2] > p.calls[c].n
+  IN MayEvict(p, k) /\ (othersOn \/ since \/ p.failed)
 
 \* split clause results into violations and known findings.  cl: record of clauses; kinds: record
 \* clause name -> "" (never excused) | "key" | "twice" | "size" | "order"
@@ -117,13 +117,15 @@ CacheApply0(p0, e) ==
          IF e.c \notin CCallers \/ e.k \notin CKeys \/ p.calls[e.c].on
          THEN [p |-> p, bad |-> {"UnknownEvent"}]
          ELSE [p |-> [p EXCEPT !.calls[e.c] = [on |-> TRUE, k |-> e.k, n |-> p.n, now |-> p.now, ev |-> FALSE],
-                               !.lastcall[e.k] = p.n,
-                               !.creq = @ \ {e.c}],
+                               !.lastcall[e.k] = p.n],
                bad |-> {}]
     [] e.ev = "xstart" ->
          IF e.c \notin CCallers \/ e.x # Len(p.ex) + 1 THEN [p |-> p, bad |-> {"UnknownEvent"}]
          ELSE
          LET cl == [ExecutesTheCallersKey |-> p.calls[e.c].on /\ p.calls[e.c].k = e.k,
+                    \* nothing is ever evicted or expires: the first result is reused by everybody
+                    ReusesTheFirstResult |-> (p.ms = CNOMAX /\ p.ttl = CNOTTL) =>
+                                                \A y \in COk(p) : p.ex[y].k # e.k,
                     \* maxsize = 0 means "no caching" (as in functools): calls are passed through
                     SingleFlight |-> p.ms = 0 \/ \A x \in CRunning(p) : p.ex[x].k # e.k]
              tnt == p.taint \/ (p.calls[e.c].on /\ EvictsBlindly(p, e.c, e.k))
@@ -135,7 +137,7 @@ CacheApply0(p0, e) ==
                                                            THEN [@[c] EXCEPT !.ev = TRUE] ELSE @[c]],
                              !.ex = Append(@, [k |-> e.k, c |-> e.c, st |-> "running", ns |-> p.n,
                                                ne |-> 0, te |-> 0])]
-             s == CSplit(p1, cl, [ExecutesTheCallersKey |-> "", SingleFlight |-> "twice"])
+             s == CSplit(p1, cl, [ExecutesTheCallersKey |-> "", ReusesTheFirstResult |-> "", SingleFlight |-> "twice"])
          IN [p |-> [p1 EXCEPT !.known = @ \cup s.known], bad |-> s.bad]
     [] e.ev = "xend" ->
          IF e.x \notin DOMAIN p.ex \/ p.ex[e.x].st # "running" \/ e.res \notin {"ok", "fail", "cancelled"}
@@ -148,7 +150,7 @@ CacheApply0(p0, e) ==
          ELSE
          LET call == p.calls[e.c]
              k == call.k
-             pdone == [p EXCEPT !.calls[e.c].on = FALSE]
+             pdone == [p EXCEPT !.calls[e.c].on = FALSE, !.creq = @ \ {e.c}]   \* the slot may be reused
          IN
          CASE e.res = "ok" ->
                 LET right == e.v \in COk(p) /\ p.ex[e.v].k = k
@@ -174,11 +176,11 @@ CacheApply0(p0, e) ==
                 LET cl == [RightValue |-> /\ e.v \in DOMAIN p.ex
                                           /\ p.ex[e.v].k = k /\ p.ex[e.v].st = "fail"
                                           /\ p.ex[e.v].ne > call.n]
-                IN [p |-> pdone, bad |-> CNames(cl)]
+                IN [p |-> [pdone EXCEPT !.failed = TRUE], bad |-> CNames(cl)]
            [] e.res = "cancelled" ->
-                [p |-> pdone, bad |-> CNames([CancelWasRequested |-> e.c \in p.creq])]
+                [p |-> [pdone EXCEPT !.failed = TRUE], bad |-> CNames([CancelWasRequested |-> e.c \in p.creq])]
            [] e.res = "internal" ->
-                IF call.ev THEN [p |-> [pdone EXCEPT !.known = @ \cup {SigKeyError}], bad |-> {}]
+                IF call.ev THEN [p |-> [pdone EXCEPT !.known = @ \cup {SigKeyError}, !.failed = TRUE], bad |-> {}]
                 ELSE [p |-> pdone, bad |-> {"NoInternalError"}]
            [] OTHER -> [p |-> p, bad |-> {"UnknownEvent"}]
     [] e.ev = "creq" -> [p |-> [p EXCEPT !.creq = @ \cup {e.c}], bad |-> {}]
